@@ -845,3 +845,66 @@ func TestC08_Keys(t *testing.T) {
 		judge(rt, "c08key", c, checkC08Key)
 	})
 }
+
+// TestC08_EnvelopeHelper: SignHashEnvelope is a Sign helper like Sign1: what it returns is well-formed, deterministic
+// where the library generated it, and accepted by the corresponding decoder (VerifyHashEnvelope under the matching
+// key) - also when the caller's Headers still carry raw bytes of an earlier message. The cases and the oracle are
+// those of C12's producer side; only the findings about the returned bytes are C08's.
+func TestC08_EnvelopeHelper(t *testing.T) {
+	begin(t, "C08", "envelopehelper")
+	prop(t, func(rt *rapid.T) {
+		ho := constructedHdrOpts()
+		ho.MaxEntries = 6
+		ho.Val.NaN = false
+		c := c12SignCase{Base: genHashCase(rt, ho)}
+		c.Base.ViaKey = false
+		c.RawProt = rapid.Bool().Draw(rt, "rawprot")
+		c.RawUnprot = rapid.SampledFrom([]int{0, 0, 1}).Draw(rt, "rawunprot")
+		if c.RawUnprot != 0 {
+			c.Base.Unprot = respellAll(c.Base.Unprot)
+		}
+		stats.Eval()
+		stats.Class("envelope-helper")
+		if c.RawProt {
+			stats.Class("envelope-helper/caller-headers-carry-raw-protected-bytes")
+		}
+		stats.NTBytes([]byte(fmt.Sprintf("%+v", c)))
+		judge(rt, "c08env", c, checkC08Envelope)
+	})
+}
+
+func checkC08Envelope(c c12SignCase) error {
+	err := checkC12Sign(c)
+	if f, ok := err.(*Finding); ok {
+		switch f.Key {
+		case "not-a-sign1", "not-wellformed", "own-envelope-refused", "ref-verify", "bytes-with-error", "wrong-payload", "panic":
+			return err
+		}
+		// C12's business - unless the decoder refuses the bytes, which is C08's as well
+		b := &c.Base
+		sg, e1 := libSigner(b.Key, false)
+		ver, e2 := libVerifier(b.Key, false)
+		if e1 != nil || e2 != nil {
+			return nil
+		}
+		p, u := applyEdits(b.Prot, b.Unprot, c.Edits)
+		h := bridge.Headers(p, u)
+		if c.RawProt {
+			h.RawProtected = protBstr(p)
+		}
+		if c.RawUnprot == 1 {
+			h.RawUnprotected = rc.Encode(u, nil)
+		}
+		out, serr := cose.SignHashEnvelope(refcose.NewEntropy([]byte("c12")), sg, h, c.payload())
+		if serr != nil {
+			return nil
+		}
+		if _, verr := cose.VerifyHashEnvelope(ver, out); verr != nil {
+			return finding("own-envelope-refused", "VerifyHashEnvelope refuses SignHashEnvelope's output: %v\n%x", verr, out)
+		}
+		return nil
+	}
+	return err
+}
+
+func init() { register("c08env", checkC08Envelope) }
